@@ -287,6 +287,16 @@ func evalTrieCase(w *h.Worker, c *h.Case, u *inputSpec, oracle trieOracle, recor
 		w.Evals++
 		w.Tick()
 	}
+	// a bystander: another trie (same encoder and options, keys with steps, stored
+	// prefixes and tails of its own) is built between this build and its
+	// questions; whatever the build path shares between tries is overwritten by it
+	{
+		bc := &h.Case{Keys: bystanderKeys, Enc: c.Enc, Opt: c.Opt, NoOptArg: c.NoOptArg}
+		if c.ValIDs != nil {
+			bc.ValIDs = []int{3, 2, 2, 1}
+		}
+		h.Build(bc)
+	}
 	var stream []byte
 	if record {
 		stream, _ = b.ST.Marshal()
@@ -344,6 +354,8 @@ func evalTrieCase(w *h.Worker, c *h.Case, u *inputSpec, oracle trieOracle, recor
 	}
 	return nil
 }
+
+var bystanderKeys = []string{"by", "bystander/aaaa1", "bystander/aaaa2-tail", "bystander/b"}
 
 type phase struct {
 	name string
